@@ -274,6 +274,13 @@ def dentry_tokens(fields):
     return [text, custom, str(len(syl))] + syl
 
 
+class Order(list):
+    """db name of each logged operation in global order, plus the script command
+    in progress at the end of the log and the command of the latest commit event"""
+    last_cmd = -1
+    last_commit_cmd = -1
+
+
 class DbHistory:
     def __init__(self, name):
         self.name = name
@@ -300,9 +307,14 @@ def parse_log(path):
         pass
     names = {l.split("\t")[2] for l in lines if l.startswith("D\t")}
     dbs = {n: DbHistory(n) for n in names}
-    order = []
+    order = Order()
     for l in lines:
         f = l.split("\t")
+        if f[0] == "M":
+            order.last_cmd = int(f[1])
+            continue
+        if f[0] == "E" and len(f) > 2 and f[2] == "commit":
+            order.last_commit_cmd = order.last_cmd
         if f[0] == "D":
             op, name, k, v, ld, tx = f[1:7]
             h = dbs[name]
@@ -469,3 +481,12 @@ def gen_history(rnd, schema, steps, two_sessions=False, lookups=False):
         if lookups:
             L.append("L %d %s" % (sid, inp))
     return L, stats
+
+
+def build_killpoint():
+    src = os.path.join(HARNESS, "killpoint.c")
+    out = os.path.join(vlib.WORK, "bin", "udbl-killpoint.so")
+    if os.path.exists(out) and os.stat(out).st_mtime_ns > os.stat(src).st_mtime_ns:
+        return out
+    vlib.sh("gcc -shared -fPIC -O1 -o %s %s -ldl" % (out, src), check=True, timeout=120)
+    return out
